@@ -14,10 +14,12 @@ Lemma run_terminate_lenient : forall md manual sched st tr,
   run (init_state md manual) sched = Some (st, tr) -> check_terminate false tr = true.
 Proof. intros. eapply terminate_monitor_accepts. eapply run_reach. eassumption. Qed.
 
+(* the code as it is (controller.reset refuses a disabled controller): the
+   strict monitor accepts every trace -- also the archive file is absent after
+   Terminate *)
 Lemma run_terminate_strict : forall md manual sched st tr,
-  run (init_state md manual) sched = Some (st, tr) -> reset_overlapped_terminate tr = false ->
-  check_terminate true tr = true.
-Proof. intros. eapply terminate_strict_accepts; [eapply run_reach; eassumption|assumption]. Qed.
+  run (init_state md manual) sched = Some (st, tr) -> check_terminate true tr = true.
+Proof. intros. eapply terminate_strict_monitor_accepts. eapply run_reach. eassumption. Qed.
 
 (* the schedule in which a Reset that selected the controller before a
    Terminate finished writes the archive afterwards *)
@@ -26,13 +28,25 @@ Definition race_schedule : list action :=
    ACall 2 CTerminate; ASelect 2; ACall 3 CReset; ASelect 3;
    AAcquire 2; AReturn 2; AAcquire 3; AReturn 3; AObserveS; AObserveA].
 
-Lemma terminate_strict_refuted :
-  exists st tr, run (init_state TwoWaySafe true) race_schedule = Some (st, tr)
+(* the code as it was: the Reset writes the archive after the Terminate *)
+Lemma terminate_strict_refuted_unfixed :
+  exists st tr, run (init_state_unfixed TwoWaySafe true) race_schedule = Some (st, tr)
                 /\ check_terminate true tr = false /\ reset_overlapped_terminate tr = true
+                /\ In (Rt 3 CReset true) tr
                 /\ arch_file st = Some None /\ sess_file st = None.
 Proof.
+  destruct (run (init_state_unfixed TwoWaySafe true) race_schedule) as [[st tr]|] eqn:E; [|vm_compute in E; discriminate].
+  exists st, tr. split; [reflexivity|]. vm_compute in E. inv E. vm_compute. intuition.
+Qed.
+
+(* the same schedule on the code as it is: the Reset is refused, nothing remains *)
+Lemma race_schedule_fixed :
+  exists st tr, run (init_state TwoWaySafe true) race_schedule = Some (st, tr)
+                /\ In (Rt 3 CReset false) tr /\ check_terminate true tr = true
+                /\ arch_file st = None /\ sess_file st = None.
+Proof.
   destruct (run (init_state TwoWaySafe true) race_schedule) as [[st tr]|] eqn:E; [|vm_compute in E; discriminate].
-  exists st, tr. split; [reflexivity|]. vm_compute in E. inv E. vm_compute. auto.
+  exists st, tr. split; [reflexivity|]. vm_compute in E. inv E. vm_compute. intuition.
 Qed.
 
 Lemma run_halt : forall md manual sched st tr,
@@ -57,8 +71,7 @@ Lemma run_saved : forall md manual sched st tr,
   run (init_state md manual) sched = Some (st, tr) -> check_saved tr = true.
 Proof. intros. eapply saved_monitor_accepts. eapply run_reach. eassumption. Qed.
 
-(* the model's own traces pass the whole C29 checker (lenient form always, the
-   strict form outside the known class) *)
+(* the model's own traces pass the whole C29 checker *)
 Lemma run_check_c29_lenient : forall md manual sched st tr,
   run (init_state md manual) sched = Some (st, tr) -> check_c29_lenient md tr = true.
 Proof.
@@ -68,11 +81,10 @@ Proof.
 Qed.
 
 Lemma run_check_c29 : forall md manual sched st tr,
-  run (init_state md manual) sched = Some (st, tr) -> reset_overlapped_terminate tr = false ->
-  check_c29_events md tr = true.
+  run (init_state md manual) sched = Some (st, tr) -> check_c29_events md tr = true.
 Proof.
-  intros md manual sched st tr H Hk. unfold check_c29_events.
-  rewrite (run_pause _ _ _ _ _ H), (run_terminate_strict _ _ _ _ _ H Hk), (run_flush _ _ _ _ _ H),
+  intros md manual sched st tr H. unfold check_c29_events.
+  rewrite (run_pause _ _ _ _ _ H), (run_terminate_strict _ _ _ _ _ H), (run_flush _ _ _ _ _ H),
           (run_saved _ _ _ _ _ H), (run_reset _ _ _ _ _ H). reflexivity.
 Qed.
 
